@@ -904,6 +904,9 @@ func (c *CharClassMatcher) parse() {
 	// content of char class is necessarily valid, so escapes are correct
 	r := strings.NewReader(raw)
 	var chars []rune
+	// escaped[i] is true when chars[i] was written as an escape sequence: an
+	// escaped hyphen stands for itself, it is not a range operator.
+	var escaped []bool
 	var buf bytes.Buffer
 outer:
 	for {
@@ -919,6 +922,7 @@ outer:
 			switch rn {
 			case ']':
 				chars = append(chars, rn)
+				escaped = append(escaped, true)
 				continue
 
 			case 'p':
@@ -958,9 +962,11 @@ outer:
 			}
 			rn, _, _, _ = strconv.UnquoteChar("\\"+buf.String(), 0)
 			chars = append(chars, rn)
+			escaped = append(escaped, true)
 
 		default:
 			chars = append(chars, rn)
+			escaped = append(escaped, false)
 		}
 	}
 
@@ -974,7 +980,7 @@ outer:
 			continue
 		}
 
-		if r == '-' && !wasRange && len(c.Chars) > 0 && i < len(chars)-1 {
+		if r == '-' && !escaped[i] && !wasRange && len(c.Chars) > 0 && i < len(chars)-1 {
 			inRange = true
 			wasRange = false
 			// start of range is the last Char added
